@@ -178,6 +178,16 @@ type c02Cmp[K any] struct {
 	to   func(int64) K
 	back func(K) int64
 	src  *c02Script
+	// optional: the representative of a key handed to the QUERYING calls (Get, GetNode, Remove, RangeWithStart/Range): equal
+	// to to(k) under the comparator but a different value.  Keys the list hands out must be the stored ones.
+	probe func(int64) K
+}
+
+func (p *c02Cmp[K]) q(k int64) K {
+	if p.probe != nil {
+		return p.probe(k)
+	}
+	return p.to(k)
 }
 
 func (p *c02Plain[K]) set(mode int, k K, v int64) bool {
@@ -364,12 +374,12 @@ func (p *c02Cmp[K]) Do(code, a, b, c int64, out []int64) []int64 {
 	case 3:
 		out = append(out, B(s.SetX(p.to(a), b)))
 	case 4:
-		v, ok := s.Get(p.to(a))
+		v, ok := s.Get(p.q(a))
 		out = append(out, v, B(ok))
 	case 5:
-		out = append(out, node(s.GetNode(p.to(a)))...)
+		out = append(out, node(s.GetNode(p.q(a)))...)
 	case 6:
-		n := s.GetNode(p.to(a))
+		n := s.GetNode(p.q(a))
 		if n != nil {
 			n.SetValue(b)
 		}
@@ -385,7 +395,7 @@ func (p *c02Cmp[K]) Do(code, a, b, c int64, out []int64) []int64 {
 		}
 		out = append(out, PutList(l)...)
 	case 10:
-		v, ok := s.Remove(p.to(a))
+		v, ok := s.Remove(p.q(a))
 		out = append(out, v, B(ok))
 	case 11:
 		s.Clear()
@@ -419,11 +429,11 @@ func (p *c02Cmp[K]) Do(code, a, b, c int64, out []int64) []int64 {
 		out = append(out, PutList(s.Values())...)
 	case 16:
 		var l []int64
-		s.RangeWithStart(p.to(a), cb(&l, b))
+		s.RangeWithStart(p.q(a), cb(&l, b))
 		out = append(out, PutList(l)...)
 	case 17:
 		var l []int64
-		s.RangeWithRange(p.to(a), p.to(b), cb(&l, c))
+		s.RangeWithRange(p.q(a), p.q(b), cb(&l, c))
 		out = append(out, PutList(l)...)
 	case 18:
 		var hs []int64
@@ -496,8 +506,19 @@ func c02Impl(in []int64) []int64 {
 		}
 		l = &c02Cmp[int64]{s: new(listz.SkipListWithCmp[int64, int64]), to: ident, back: ident, src: src, cmp: rev}
 	case 6:
-		l = &c02Cmp[int64]{s: new(listz.SkipListWithCmp[int64, int64]), to: ident, back: ident, src: src,
+		// keys are stored as 2k and asked for as 2k+1; the comparator looks at k only (values that are equal under the
+		// comparator but distinguishable: case-insensitive strings, records ordered by an id).  An odd key coming out of the
+		// list is a probe handed back instead of the stored key: token -1000034.
+		l = &c02Cmp[int64]{s: new(listz.SkipListWithCmp[int64, int64]), src: src,
+			to: func(k int64) int64 { return 2 * k }, probe: func(k int64) int64 { return 2*k + 1 },
+			back: func(x int64) int64 {
+				if x&1 != 0 {
+					return -1000034
+				}
+				return x >> 1
+			},
 			cmp: func(a, b int64) int {
+				a, b = a>>1, b>>1
 				if a%4 != b%4 {
 					return c02Sign(a%4 - b%4)
 				}
@@ -517,7 +538,7 @@ func c02Impl(in []int64) []int64 {
 var c02Names = []string{"Init", "Set", "SetNx", "SetX", "Get", "GetNode", "NodeSetValue", "Len", "Head", "HeadNextWalk", "Remove", "Clear",
 	"Range", "All", "Keys", "Values", "RangeWithStart", "RangeWithRange", "Shape"}
 var c02Kinds = map[int64]string{0: "SkipList[int]", 3: "SkipList[string]", 4: "SkipListWithCmp[int] ascending, keys scaled by 2^31, cmp = a-b", 5: "SkipListWithCmp[int] reversed (cmp = b-a, or MinInt/0/MaxInt when words+ops is odd)",
-	6: "SkipListWithCmp[int] composite(k%4,k)", 7: "SkipListWithCmp[string]"}
+	6: "SkipListWithCmp[int] composite(k%4,k), keys stored as 2k and queried as 2k+1 (equal under the comparator)", 7: "SkipListWithCmp[string]"}
 
 func c02Describe(in []int64) string {
 	kind, ws, ops, ok := c02Parse(in)
